@@ -203,7 +203,8 @@ def build(spec):
         inet.add_nodes(list(ict_nodes.values()))
         ilines = []
         for k, (a, b) in enumerate(ict["lines"]):
-            il = ICTLine(f"IL{k}", ict_nodes[a], ict_nodes[b])
+            # (communication lines may be numbered like the power lines: names are unique per kind of component only)
+            il = ICTLine((ict.get("line_names") or [])[k] if k < len(ict.get("line_names") or []) else f"IL{k}", ict_nodes[a], ict_nodes[b])
             il.repair_time_dist = FixedDist(rep)
             ilines.append(il)
         inet.add_lines(ilines)
